@@ -316,7 +316,10 @@ static void init(void)
     if (p && *p) {
         int fd = real_open(p, O_WRONLY | O_CREAT | O_APPEND | O_CLOEXEC, 0644);
         if (fd >= 0) {
-            log_fd = fcntl(fd, F_DUPFD_CLOEXEC, 1000);
+            /* park the log on a high descriptor, out of the program's way; under a low RLIMIT_NOFILE take what there is */
+            static const int want[] = {1000, 250, 60, 24, 12, 3};
+            int k;
+            for (k = 0; k < 6 && log_fd < 0; k++) log_fd = fcntl(fd, F_DUPFD_CLOEXEC, want[k]);
             real_close(fd);
         }
         if (log_fd < 0) {
